@@ -41,9 +41,13 @@ def table_bits(ctx):
     wr = {}
     for (b, op, vals, s) in bin_stmts(fb, S, ("BitOr",)):
         c = [int(v[2:]) for v in vals if v.startswith("c:")]
-        flag = [e for (e, tr, g) in S.bool_facts_at(b) if tr is True and re.fullmatch(r"\*p1\.\w+", e)]
+        allf = S.bool_facts_at(b)
+        flag = [e for (e, tr, g) in allf if tr is True and re.fullmatch(r"\*p1\.\w+", e)]
         if c and flag:
             wr[flag[0].split(".")[-1]] = c[0]
+            ctx.check(len(allf) == 1, R, "%s bit depends on the flag alone" % flag[0].split(".")[-1], "", "Column::bitfield sets the %s bit only under the extra conditions %s: the flag is "
+                      "lost for other columns (e.g. integer or unbounded string columns)" % (flag[0].split(".")[-1], [(e[:50], tr) for e, tr, g in allf if e != flag[0]]), fb.loc(), fn=fb.name,
+                      key="%s|flag-alone|%s" % (R, flag[0].split(".")[-1]))
     ctx.check(wr == {"is_localizable": 0x200, "is_nullable": 0x1000, "is_primary_key": 0x2000}, R, "writer flag bits", str(wr),
               "Column::bitfield sets %s, expected is_localizable 0x200, is_nullable 0x1000, is_primary_key 0x2000" % {k: hex(v) for k, v in wr.items()}, fb.loc(), fn=fb.name)
     fwb = prog.fn(COL + "ColumnBuilder::with_bitfield")
@@ -271,6 +275,17 @@ def sep1(ctx):
     So = Sym(prog, o)
     splits = [args for b, n, args, t in symcalls(prog, o, So) if n.endswith("<impl str>::split") and "c:59" in args[1]]
     ctx.check(len(joins) == 1 and ("s:';'" in joins[0][1] or "c:59" in joins[0][1]) and len(splits) == 1, R, "separator is ';' on both sides", "", "enumeration separator differs: join %s, split %s" % (joins, splits), f.loc(), fn=f.name)
+    # the split result reaches the builder unchanged, the joined list comes straight from the column
+    ev = [args for b, n, args, t in symcalls(prog, o, So) if n.endswith("ColumnBuilder::enum_values")]
+    from ..lib import call_of
+    direct = False
+    for a in ev:
+        cn1, ca1 = call_of(So, a[1])
+        if cn1 and cn1.endswith("Iterator::collect") and ca1:
+            cn2, ca2 = call_of(So, ca1[0])
+            direct = bool(cn2) and cn2.endswith("<impl str>::split")
+    ctx.check(direct and len(ev) == 1, R, "open passes the split values to the builder unchanged", "", "open transforms the values between split(';') and ColumnBuilder::enum_values "
+              "(trim/filter/map): values that create_table accepted reopen differently", o.loc(), fn=o.name, key=R + "|direct")
     guard = False
     for g in prog.unit(f):
         S = Sym(prog, g)
